@@ -1329,21 +1329,48 @@ Proof.
   destruct (euid x =? u); rewrite ?len_cons; lia.
 Qed.
 
+(** COUNT filters the in-memory rows by event type like the segment rows (fix dc170f4; the flag is
+    regenerated from the source, so this lemma stops checking if the memtable read paths lose the
+    special-field conditions again): it is the length of the scan, before id de-duplication. *)
+Lemma count_typed : forall s u, count s u = len (of_uid u (mem_rows s)) + len (of_uid u (seg_rows s)).
+Proof. reflexivity. Qed.
+
+Theorem count_is_scan : forall s u, count s u = len (scan s u).
+Proof. intros s u. rewrite count_typed. unfold scan. rewrite of_uid_app, len_app. reflexivity. Qed.
+
 (** COUNT never reports fewer rows than a selection returns ... *)
 Theorem count_ge_select : forall s u, len (select s u) <= count s u.
 Proof.
-  intros s u. unfold select, count, scan. pose proof (dedup_len (of_uid u (mem_rows s ++ seg_rows s)) []) as H.
-  rewrite of_uid_app in *. rewrite len_app in H. pose proof (of_uid_len u (mem_rows s)). lia.
+  intros s u. rewrite count_is_scan. unfold select. apply dedup_len.
 Qed.
 
-(** ... and this is what it reports after a restart: every line of every log file,
-    whatever its event type, plus the rows of the queried type of every directory *)
-Theorem count_after_restart : forall s u,
-  count (restart (crash s)) u = len (frows (walfiles s)) + len (of_uid u (drows (dirs s))) /\
-  count (restart s) u = len (frows (walfiles s)) + len (of_uid u (drows (dirs s))).
+(** ... it equals the selection exactly when no event id occurs twice in the scan ... *)
+Lemma dedup_ev_id : forall l seen,
+  NoDup (map ek l) -> (forall e, In e l -> memb (ek e) seen = false) -> dedup_ev l seen = l.
 Proof.
-  intros s u. assert (G : forall t, count (restart t) u = len (frows (walfiles t)) + len (of_uid u (drows (dirs t)))).
-  { intros t. unfold count, mem_rows, seg_rows, scanned_dirs, restart; proj. cbn [map concat].
+  induction l as [|x r IH]; intros seen Hn Hs; cbn [dedup_ev]; [reflexivity|].
+  cbn [map] in Hn. apply NoDup_cons_iff in Hn as [Hx Hn].
+  rewrite (Hs x) by (left; reflexivity). f_equal. apply IH; [exact Hn|].
+  intros e He. change (memb (ek e) (ek x :: seen)) with ((ek e =? ek x) || memb (ek e) seen).
+  rewrite (Hs e) by (right; exact He).
+  destruct (N.eqb_spec (ek e) (ek x)) as [Hk|Hk]; [|reflexivity].
+  exfalso. apply Hx. rewrite <- Hk. apply in_map. exact He.
+Qed.
+
+Theorem count_exact_when_ids_distinct : forall s u,
+  NoDup (map ek (scan s u)) -> count s u = len (select s u).
+Proof.
+  intros s u Hn. rewrite count_is_scan. unfold select. rewrite dedup_ev_id; [reflexivity|exact Hn|reflexivity].
+Qed.
+
+(** ... and this is what it reports after a restart: the lines of the queried type of every log file
+    plus the rows of the queried type of every directory *)
+Theorem count_after_restart : forall s u,
+  count (restart (crash s)) u = len (of_uid u (frows (walfiles s))) + len (of_uid u (drows (dirs s))) /\
+  count (restart s) u = len (of_uid u (frows (walfiles s))) + len (of_uid u (drows (dirs s))).
+Proof.
+  intros s u. assert (G : forall t, count (restart t) u = len (of_uid u (frows (walfiles t))) + len (of_uid u (drows (dirs t)))).
+  { intros t. rewrite count_typed. unfold mem_rows, seg_rows, scanned_dirs, restart; proj. cbn [map concat].
     rewrite app_nil_r, filter_all; [reflexivity|].
     intros d Hd. apply orb_true_iff; left. apply memb_In, sort_n_In, in_map, Hd. }
   split; [rewrite G; reflexivity|apply G].
@@ -1560,17 +1587,20 @@ Proof.
   vm_compute. discriminate.
 Qed.
 
-(** COUNT after recovery: the in-memory rows are counted whatever their type ... *)
-Theorem count_type_blind_refuted :
-  exists c ls u, 0 < c /\ lockstep ls = true /\ wal_ordered (init c) ls = true /\
+(** COUNT after recovery: the in-memory rows (the replayed WAL) are counted by type, so on the history
+    that used to witness the type-blind count (events of two types in the log) COUNT is the selection ... *)
+Example count_two_types_exact :
+  let c := 2 in let ls := Traces.two_types in let u := 0 in
+  0 < c /\ lockstep ls = true /\ wal_ordered (init c) ls = true /\
     NoDup (map ek (stored ls)) /\ wlost (run (init c) ls) = [] /\
     select (restart (crash (run (init c) ls))) u = of_uid u (durable ls) /\
-    count (restart (crash (run (init c) ls))) u <> len (select (restart (crash (run (init c) ls))) u).
+    NoDup (map ek (scan (restart (crash (run (init c) ls))) u)) /\
+    count (restart (crash (run (init c) ls))) u = len (select (restart (crash (run (init c) ls))) u).
 Proof.
-  exists 2, Traces.two_types, 0.
+  cbv zeta.
   split; [reflexivity|]. split; [vm_compute; reflexivity|]. split; [vm_compute; reflexivity|].
   split; [apply nodupb_NoDup; vm_compute; reflexivity|]. split; [vm_compute; reflexivity|].
-  split; [vm_compute; reflexivity|vm_compute; discriminate].
+  split; [vm_compute; reflexivity|]. split; [apply nodupb_NoDup; vm_compute; reflexivity|vm_compute; reflexivity].
 Qed.
 
 (** ... and rows present in a leftover directory and in the log are counted twice *)
